@@ -475,7 +475,7 @@ class NameConverter(ast.NodeTransformer):
             name = (
                 "__SUBTLER_TYPE__"
                 if self.analysis.lookup_for(key) is subtler_type
-                else "type"
+                else "__TYPE__"
             )
             value = ast.NamedExpr(
                 target=ast.Name(id=f"{tmp}{key}", ctx=ast.Store()),
@@ -647,6 +647,9 @@ def recode(fn, ovld, recurse_sym, call_next_sym, newname):
     new_fn.__annotations__ = fn.__annotations__
     new_fn = rename_function(new_fn, newname)
     new_fn.__globals__["__SUBTLER_TYPE__"] = subtler_type
+    # Not the bare name: the method may have a parameter or a local variable
+    # that is called "type"
+    new_fn.__globals__["__TYPE__"] = type
     new_fn.__globals__[ovld_mangled] = ovld.dispatch
     new_fn.__globals__[map_mangled] = ovld.map
     new_fn.__globals__[code_mangled] = new_fn.__code__
